@@ -326,7 +326,7 @@ def eval_tree(case, stats=None):
     return vs
 
 
-BUDGET = {"quick": {"direct": 1200, "e2e": 14, "fuzz": (1, 3000)}, "thorough": {"direct": 40000, "e2e": 260, "fuzz": (8, 150000)}}
+BUDGET = {"quick": {"direct": 1200, "e2e": 14, "fuzz": (1, 1500)}, "thorough": {"direct": 40000, "e2e": 260, "fuzz": (8, 150000)}}
 
 # coverage-guided stage: same strategy, same oracle, bytes chosen by libFuzzer (cmv/fuzz.py)
 FUZZ_TARGETS = {"direct": (lambda: direct_case(), lambda c, stats: eval_direct(c, stats))}
